@@ -8,7 +8,7 @@ use std::sync::{Arc, Mutex};
 
 use alpenglow::consensus::verif::{verif_capture_timeouts, verif_take_armed_windows};
 use alpenglow::consensus::{
-    BlockInfo, BlockstoreEvent, Cert, ConsensusMessage, PoolEvent, ValidatedCert, ValidatedVote, Vote, Votor,
+    BlockInfo, BlockstoreEvent, Cert, ConsensusMessage, PoolEvent, Vote, Votor,
 };
 use alpenglow::crypto::merkle::{BlockHash, GENESIS_BLOCK_HASH};
 use alpenglow::types::{SLOTS_PER_WINDOW, Slot};
